@@ -72,11 +72,14 @@ inline thread_local slot *tl_slot = nullptr;
 
 inline pid_t gettid_() { return (pid_t)syscall(SYS_gettid); }
 
-struct aux_releaser {
-    slot *s = nullptr;
-    ~aux_releaser() { if (s) { s->used.store(0, std::memory_order_relaxed); } }
-};
-inline thread_local aux_releaser tl_aux_rel;
+// The slot of an auxiliary (library-created) thread is released when the thread exits. A pthread key is used instead of a C++
+// thread_local object with a destructor: gcc initialises all dynamically initialised thread-locals of a translation unit together,
+// so touching such an object in the hook handler would construct the LIBRARY's thread-local ready queue (two allocations) on every
+// new thread as a side effect of the harness.
+inline pthread_key_t aux_key() {
+    static pthread_key_t k = [] { pthread_key_t kk; pthread_key_create(&kk, [](void *p) { if (p) static_cast<slot *>(p)->used.store(0, std::memory_order_relaxed); }); return kk; }();
+    return k;
+}
 
 inline slot *acquire_aux_slot() {
     for (int i = MAX_TEAM; i < MAX_SLOTS; i++) {
@@ -97,7 +100,7 @@ inline slot *acquire_aux_slot() {
                 for (int j = 0, n = s->nplan; j < n; j++) { s->plan[j] = g_team.aux_plan[k][j]; s->plan[j].seen = 0; s->plan[j].fired = 0; }
             }
             tl_slot = s;
-            tl_aux_rel.s = s;
+            pthread_setspecific(aux_key(), s);
             return s;
         }
     }
